@@ -153,8 +153,8 @@ pub fn run(eng: &Engine) {
     eng.assume("out-of-bounds reads that do not flow into live data are invisible to the release harness; the thorough tier replays the same op lists under AddressSanitizer (cargo-fuzz target ringbuf_ops) and Miri");
     let limit = cap_limit(eng);
     let big = if eng.tier == Tier::Quick { 1500 } else { 300_000 };
-    let n_ring = eng.tier.pick(40_000, 1_500_000);
-    let n_dbuf = eng.tier.pick(20_000, 600_000);
+    let n_ring = eng.tier.pick(300_000, 4_000_000);
+    let n_dbuf = eng.tier.pick(150_000, 2_000_000);
     eng.run_stage("ring_ops", n_ring, || ops_strategy(60, big), move |ops: &Vec<Op>, ctx| ring_case(ops, ctx, limit));
     eng.run_stage("decodebuf_ops", n_dbuf, || dcase_strategy(50), decodebuf_case);
     if !eng.has_violation() {
